@@ -30,6 +30,9 @@ type action struct{ d *digest.Digest }
 type config struct {
 	name       string
 	workers    [][]action // one script per worker thread
+	// executors: one script per thread that goes through the REAL
+	// LocalBuildExecutor (Execute / CheckReadiness) over the creator.
+	executors [][]execOp
 	runnerOps  []string   // script of the runner thread ("Run", "CheckReadiness")
 	maxFaults  int
 	maxCancels int
@@ -100,6 +103,10 @@ func scenario(c config) *mc.Scenario {
 			for i := range c.workers {
 				workers = append(workers, w.addThread(fmt.Sprintf("W%d", i+1)))
 			}
+			var executors []*thread
+			for i := range c.executors {
+				executors = append(executors, w.addThread(fmt.Sprintf("E%d", i+1)))
+			}
 			var runnerThread *thread
 			if len(c.runnerOps) > 0 {
 				runnerThread = w.addThread("R")
@@ -108,6 +115,11 @@ func scenario(c config) *mc.Scenario {
 			for i, script := range c.workers {
 				t, script := workers[i], script
 				x.Go(t.name, func() { w.workerThread(t, creator, script) })
+			}
+			for i, script := range c.executors {
+				t, script := executors[i], script
+				be := newExecutor(w, creator)
+				x.Go(t.name, func() { w.execThread(t, be, script) })
 			}
 			if runnerThread != nil {
 				x.Go("R", func() { w.runnerThread(runnerThread, cleanRunner, c.runnerOps) })
@@ -307,8 +319,13 @@ var (
 	opsRunner  = []string{"runner.Run", "runner.CheckReadiness"}
 	opsDir     = []string{"root.Mkdir", "root.Enter", "root.Remove", "root.RemoveAll", "dir.Close"}
 	opsAll     = append(append(append([]string{}, opsCleaner...), opsRunner...), opsDir...)
+	// Everything Execute / CheckReadiness touch: additionally the
+	// operations inside the action's own directory, the CAS and the runner.
+	opsExec = append(append([]string{}, opsAll...), "dir.Mkdir", "dir.Enter", "dir.Merge", "dir.UploadFile", "cas.Get")
 	unbounded  = map[string]int{"quick": -1, "thorough": -1}
 )
+
+var quietExec = []string{"dir.Mknod", "dir.Merge", "dir.UploadFile", "cas.Get", "runner.Run"}
 
 var quietDirs = []string{"root.Mkdir", "root.Enter", "root.Remove", "root.RemoveAll", "dir.Close"}
 
@@ -412,6 +429,38 @@ var configs = []config{
 		quiet:     quietDirs,
 		maxFaults: 1, maxCancels: 0,
 		bounds: map[string]int{"quick": 2, "thorough": 4},
+	},
+	// --- The executor's own use of the stack (real LocalBuildExecutor): every
+	// way out of Execute / CheckReadiness gives the build directory back.
+	{
+		// One worker thread: an uncacheable action, the same cacheable
+		// action twice (directory name reused), a readiness check.
+		name: "exec-1thread", c14: true,
+		executors: [][]execOp{{{d: nil}, {d: &digestA}, {readiness: true}, {d: &digestA}}},
+		faultAt:   opsExec,
+		maxFaults: 2, maxCancels: 0, bounds: unbounded,
+	},
+	{
+		// Execute next to a worker thread that drives the creator itself:
+		// the use count must come back on every path out of Execute, or the
+		// other user's busy->idle transition is not cleaned. Operations
+		// that cannot make Execute return early before the command ran
+		// (merge, CAS, runner, uploads) are atomic and fault free here;
+		// exec-1thread covers their failures.
+		name: "exec+worker", c14: true,
+		executors: [][]execOp{{{d: nil}}},
+		workers:   [][]action{{{nil}}},
+		faultAt:   []string{"cleaner", "root.Mkdir", "root.Enter", "root.Remove", "root.RemoveAll", "dir.Close", "dir.Mkdir", "dir.Enter"},
+		quiet:     quietExec,
+		maxFaults: 1, maxCancels: 1, bounds: unbounded,
+	},
+	{
+		// Two executors (two worker threads of one bb_worker).
+		name:      "exec-2threads",
+		executors: [][]execOp{{{d: nil}}, {{d: &digestA}}},
+		faultAt:   []string{"cleaner", "root.Mkdir", "root.Enter", "root.RemoveAll", "dir.Close", "dir.Mkdir", "dir.Enter"},
+		quiet:     quietExec,
+		maxFaults: 1, maxCancels: 0, bounds: unbounded,
 	},
 	// --- Everything at once: every operation a scheduling point.
 	{
